@@ -2,8 +2,11 @@ package checks
 
 import (
 	"bytes"
+	"context"
 	"fmt"
 	"strings"
+
+	wire "github.com/jeroenrinzema/psql-wire"
 
 	"verifharness/core"
 	"verifharness/hs"
@@ -17,7 +20,7 @@ type c06 struct{ base }
 func init() {
 	core.Register(c06{base{id: "C06", level: "exploration", quickB: 16, thoroughB: 32,
 		rule:        "histories over {Parse ok/err/0/2 statements, Bind known/unknown/with an unsupported format code, Describe S/P, Execute (ok, fail before/after rows, panic, unknown portal), Close S/P, Flush, Sync, simple Query, unknown-type, oversized} with names from {\"\",a,b}; every history is followed by Sync + probe Query, or (every fifth length) by Terminate in whatever state it left. quick: exhaustive over all histories of length <= 4 from a 14-symbol alphabet + random length <= 12; thorough: random length <= 30. Each history runs in lock-step (reply must be complete when the server blocks for input = promptness) and again pipelined in one segment (bytes and callback trace must be identical). Non-trivial = contains an error or an unknown name or a message while skipping; distinct = distinct message-kind/outcome sequence.",
-		need:        []string{"messages_stepped", "extended_errors", "messages_discarded_while_skipping", "pipelined_runs"},
+		need:        []string{"messages_stepped", "extended_errors", "messages_discarded_while_skipping", "pipelined_runs", "session_contexts_ended_inside_a_history"},
 		assumptions: append([]string{"after an unknown-type or oversized non-Query message inside a batch the reply (nothing / E / E Z) and the skipping state are left open; whether portals survive Sync, whether Close(statement) cascades to its portals and whether a simple Query destroys the unnamed statement are left open (all accepted consistently)"}, commonAssumptions...)}})
 }
 
@@ -309,6 +312,31 @@ func (ch c06) Run(c *core.Ctx) {
 	if c.Batch == 0 {
 		c.Count("exhaustive_parts", 1)
 	}
+	// histories during which the embedding program ends the context it gave the session
+	envC := hs.Start(hs.Parse, wire.SessionMiddleware(func(ctx context.Context) (context.Context, error) {
+		if conn := hs.ConnOf(ctx); conn != nil {
+			if s, _ := conn.User.(*hs.Sess); s != nil {
+				var cancel context.CancelFunc
+				ctx, cancel = context.WithCancel(ctx)
+				s.EndSession = cancel
+			}
+		}
+		return ctx, nil
+	}))
+	defer envC.Stop()
+	nend := 1600
+	if c.Tier == "thorough" {
+		nend = 200000
+	}
+	for i := c.Batch; i < nend; i += nb {
+		if !c.Begin(2000000+i) || c.NViol() >= 10 {
+			continue
+		}
+		rng := core.NewRng(c.Seed, "C06ended", 0, i)
+		pfx := fmt.Sprintf("s%d", i)
+		h := append(randHistory(rng, pfx, 10, false), tail(pfx)...)
+		ch.endedSession(c, envC, h, rng.Intn(len(h)))
+	}
 	// random part
 	nrand, rlen := 20000, 12
 	if c.Tier == "thorough" {
@@ -323,6 +351,107 @@ func (ch c06) Run(c *core.Ctx) {
 		pfx := fmt.Sprintf("r%d", i)
 		runOne(randHistory(rng, pfx, rlen, true), pfx)
 	}
+}
+
+// endedSession: the embedding program gives every connection a context of its own (session middleware) and
+// ends it at some point of the history - a per-session deadline, a log-out - while the connection goes on.
+// Whatever the server makes of commands after that (serves them, refuses them), the rules of the cycle stay:
+// no ReadyForQuery for anything but Sync (and the one that ends a simple Query), exactly one per Sync, at most
+// one ErrorResponse per message and silence without callbacks from there to the next Sync.
+func (ch c06) endedSession(c *core.Ctx, env *hs.Env, h []xMsg, cancelAt int) {
+	cs := map[string]any{"history": histString(h), "session_context_ended_before_step": cancelAt}
+	sess := &hs.Sess{Progs: map[string]*hs.Prog{}}
+	for _, m := range h {
+		if (m.K == "parse" || m.K == "query") && m.Prog != nil {
+			sess.Progs[m.Query] = m.Prog
+		}
+	}
+	cl := hs.NewClient(env.Dial(sess))
+	if err := cl.StartupOK("u"); err != nil {
+		c.Violate("startup", "plain startup failed", err.Error(), cs)
+		return
+	}
+	if sess.EndSession == nil {
+		c.Inconclusive("ended-session histories: the session middleware did not run")
+		return
+	}
+	skip := false
+	for i, m := range h {
+		if i == cancelAt {
+			sess.EndSession()
+			c.Count("session_contexts_ended_inside_a_history", 1)
+		}
+		evStart := len(cl.C.Events())
+		out, closed := cl.Step(m.bytes())
+		if hangCheck(c, cl, cs) {
+			return
+		}
+		if closed {
+			if i < cancelAt {
+				c.Violate("dropped", "connection dropped on "+m.K, fmt.Sprintf("history [%s], step %d", histString(h), i), cs)
+			}
+			return // a server that ends the connection of an ended session is not judged here
+		}
+		msgs, err := parseAll(out)
+		if err != nil {
+			c.Violate("grammar", "reply not well-formed after "+m.K, err.Error(), cs)
+			return
+		}
+		r := pg.Types(msgs)
+		parses, execs := xCollectTrace(cl.C.Events()[evStart:])
+		ncb := len(parses) + len(execs)
+		after := ""
+		if i >= cancelAt {
+			after = " (the session's context has ended)"
+		}
+		viol := func(rule, sig string) {
+			c.Violate(rule, sig+after, fmt.Sprintf("history [%s], step %d %s: reply %q, %d callback(s)", histString(h), i, m.short(), r, ncb), cs)
+		}
+		switch m.K {
+		case "sync":
+			if r != "Z" {
+				viol("sync", "Sync not answered by exactly one ReadyForQuery")
+				return
+			}
+			skip = false
+		case "query":
+			if skip {
+				return // what a simple Query does to a failed batch is judged by the model part
+			}
+			if strings.Count(r, "Z") != 1 || !strings.HasSuffix(r, "Z") {
+				viol("query-cycle", "simple Query inside an extended history not ended by exactly one ReadyForQuery")
+				return
+			}
+		case "flush":
+			if r != "" {
+				viol("flush", "Flush answered")
+				return
+			}
+		default:
+			switch {
+			case strings.Contains(r, "Z"):
+				viol("rfq", "ReadyForQuery sent for "+m.K)
+				return
+			case skip && (r != "" || ncb != 0):
+				viol("skip", "message after a failed one not discarded until Sync ("+m.K+")")
+				return
+			case strings.Count(r, "E") > 1 || strings.Contains(r, "E") && !strings.HasSuffix(r, "E"):
+				viol("error-once", "failing "+m.K+" not answered by exactly one ErrorResponse as its last reply")
+				return
+			}
+			if strings.Contains(r, "E") {
+				skip = true
+				if i >= cancelAt {
+					c.Count("errors_after_the_session_context_ended", 1)
+				}
+			}
+		}
+		if i >= cancelAt {
+			c.Count("messages_stepped_after_the_session_context_ended", 1)
+		}
+	}
+	cl.Finish()
+	c.Eval(fmt.Sprintf("ended session at %d of %s", cancelAt, xShape(h)), true)
 }
 
 func traceOf(evs []trEvent) []string {
